@@ -42,7 +42,7 @@ func startSentinels(t *testing.T, salt uint64) ([]*sentinel, error) {
 		// sentinels makes every forced collection slower.
 		// Paths with a literal method argument are always kept: caches of
 		// validated arguments are the typical per-node cache.
-		if addrDependent(p.Text) || d.NoEnum || ((uint64(idx)+salt)%4 != 0 && !methodArg.MatchString(p.Text)) {
+		if addrDependent(p.Text) || d.NoGen || ((uint64(idx)+salt)%4 != 0 && !methodArg.MatchString(p.Text)) {
 			continue
 		}
 		sc := &Scenario{Version: 1, Property: "C19", Mode: "interleave", Start: "2010-06-15T10:00:00Z",
